@@ -37,7 +37,11 @@ git -C "$WT" apply "$src/patch.diff" >>"$log" 2>&1 || { verdict "RESULT patch.di
 echo "== demo with the change" >>"$log"
 if run_demo; then demo_mut=pass; else demo_mut=fail; fi
 
-# complete existing suite with the change only
+# complete existing suite with the change only (SKIP_SUITE=1: done later, batched, by
+# tools/verify_suite_batch.sh)
+if [ "${SKIP_SUITE:-0}" = 1 ]; then
+suite=pending; summary=""; newfail=""
+else
 reset
 git -C "$WT" apply "$src/patch.diff" >>"$log" 2>&1
 echo "== full suite with the change" >>"$log"
@@ -56,6 +60,7 @@ PY
 if echo "$summary" | grep -q "3164 passed" && [ -z "$newfail" ]; then suite=pass; else suite=fail; fi
 if ! grep -q "Summary" "$suite_log"; then suite=did-not-run; fi
 reset
+fi
 
 # our checks
 check_quick=skipped; check_thorough=skipped
